@@ -23,7 +23,7 @@ RULE = ('files of ~150-1500 bytes from vlib.model.gen_file (contiguous, interlea
 ASSUMPTIONS = ['marker variant: strings only in single-chunk last segments (as the statement restricts)',
                'expected status: explicit offsets -> incomplete iff data_start <= cut < end of a segment; marker -> iff the last '
                "segment's metadata is complete"]
-REQUIRED = ['reads_with_intact_index', 'memmap_reads', 'tall_files', 'long_files', 'cuts', 'cuts_in_raw_data', 'cuts_in_metadata', 'cuts_in_lead_in', 'status_checked', 'lazy_eager_compared', 'prefix_checked',
+REQUIRED = ['reads_through_wrapped_stream', 'reads_with_intact_index', 'memmap_reads', 'tall_files', 'long_files', 'cuts', 'cuts_in_raw_data', 'cuts_in_metadata', 'cuts_in_lead_in', 'status_checked', 'lazy_eager_compared', 'prefix_checked',
             'variant:explicit', 'variant:marker', 'cuts_checked']
 N = {'quick': 130, 'thorough': 16000}
 NDAQ = {'quick': 60, 'thorough': 6000}
@@ -52,6 +52,10 @@ def shard_setup(ctx):
     ctx.tmpdir = ctx.tmp.__enter__()
     import os
     ctx.dpath = os.path.join(ctx.tmpdir, 'cut%d.tdms' % os.getpid())
+    # a file of another size whose descriptor a wrapping stream reports (gzip.open, a member of an archive, a window of a container)
+    ctx.container = open(os.path.join(ctx.tmpdir, 'container%d.bin' % os.getpid()), 'w+b')
+    ctx.container.write(b'\x1f\x8b' + b'\0' * 5)
+    ctx.container.flush()
 
 
 def shard_teardown(ctx):
@@ -59,6 +63,14 @@ def shard_teardown(ctx):
     ctx.tmp.__exit__()
     ctx.reach.stop()
     ctx.reach.report(ctx)
+
+
+class WrappedStream(io.BytesIO):
+    """A seekable stream over the TDMS bytes that forwards fileno() of the container file it was unpacked from."""
+    container_fd = None
+
+    def fileno(self):
+        return WrappedStream.container_fd
 
 
 def build(case):
@@ -173,9 +185,21 @@ def run_case(case, ctx):
             modes = ('eager', 'lazy', 'eager-path+index', 'lazy-path+index')
             util.write_file(ctx.dpath, blob[:cut])
             util.write_file(ctx.dpath + '_index', index_bytes)
+        if case['s'] % 4 == 2:
+            modes = ('eager', 'lazy', 'eager-wrapped-stream', 'lazy-wrapped-stream')
+            WrappedStream.container_fd = ctx.container.fileno()
         for mode in modes:
             try:
-                if mode == 'eager-path+index':
+                if mode == 'eager-wrapped-stream':
+                    tf = TdmsFile.read(WrappedStream(blob[:cut]), raw_timestamps=True)
+                    obs[mode] = observe(tf)
+                    status = tf.file_status.incomplete_final_segment
+                    ctx.count('reads_through_wrapped_stream')
+                elif mode == 'lazy-wrapped-stream':
+                    with TdmsFile.open(WrappedStream(blob[:cut]), raw_timestamps=True) as tf:
+                        obs[mode] = observe(tf)
+                        status = tf.file_status.incomplete_final_segment
+                elif mode == 'eager-path+index':
                     tf = TdmsFile.read(ctx.dpath, raw_timestamps=True)
                     obs[mode] = observe(tf)
                     status = tf.file_status.incomplete_final_segment
